@@ -264,3 +264,106 @@ func H_C13_two_fields() {
 		verif.Assert(verif.And(t.Ign == pre.Ign, t.hidden == pre.hidden), "C13/two fields: ignored and unexported fields untouched")
 	}
 }
+
+type c13Elem struct {
+	Name string `config:"name"`
+	Port uint64 `config:"port"`
+	note uint64
+	Ign  uint64 `config:",ignore"`
+}
+
+type c13Slices struct {
+	Hosts []c13Elem           `config:"hosts"`
+	Maps  []map[string]uint64 `config:"maps"`
+	Deep  [][]uint64          `config:"deep"`
+}
+
+// H_C13_slice_elements: composite elements of a pre-filled slice are merged into, field by field:
+// what the config does not mention inside an element stays.
+func H_C13_slice_elements() {
+	pre := c13Slices{
+		Hosts: []c13Elem{{Name: "a", Port: verif.Uint64("pre.h0.port"), note: verif.Uint64("pre.h0.note"), Ign: 7}, {Name: "b", Port: verif.Uint64("pre.h1.port"), note: 2, Ign: 8}},
+		Maps:  []map[string]uint64{{"k": verif.Uint64("pre.m0.k")}},
+		Deep:  [][]uint64{{verif.Uint64("pre.d00"), verif.Uint64("pre.d01")}},
+	}
+	t := c13Slices{Hosts: append([]c13Elem{}, pre.Hosts...), Maps: []map[string]uint64{{"k": pre.Maps[0]["k"]}}, Deep: [][]uint64{append([]uint64{}, pre.Deep[0]...)}}
+	u := verif.Uint64("cfg.u")
+	cfg := map[string]interface{}{}
+	which := verif.Choice("which", 4)
+	switch which {
+	case 0: // as many configured elements as pre-filled ones, each mentions only the port
+		cfg["hosts"] = []interface{}{map[string]interface{}{"port": u}, map[string]interface{}{"port": u}}
+	case 1: // fewer
+		cfg["hosts"] = []interface{}{map[string]interface{}{"port": u}}
+	case 2:
+		cfg["maps"] = []interface{}{map[string]interface{}{"j": u}}
+	case 3:
+		cfg["deep"] = []interface{}{[]interface{}{u}}
+	}
+	c, err := ucfg.NewFrom(cfg)
+	verif.Assume(err == nil)
+	err = c.Unpack(&t)
+	verif.Assert(err == nil, "C13/slice elements: unpack accepted")
+	if err != nil {
+		return
+	}
+	verif.Reach("slice elements merged")
+	switch which {
+	case 0, 1:
+		verif.Assert(len(t.Hosts) == 2, "C13/slice elements: length kept")
+		if len(t.Hosts) == 2 {
+			verif.Assert(verif.And(t.Hosts[0].Port == u, t.Hosts[0].Name == "a"), "C13/slice elements: mentioned field set, unmentioned field of the element kept")
+			verif.Assert(verif.And(t.Hosts[0].note == pre.Hosts[0].note, t.Hosts[0].Ign == 7), "C13/slice elements: unexported and ignored fields of the element kept")
+			if which == 0 {
+				verif.Assert(verif.And(t.Hosts[1].Port == u, t.Hosts[1].Name == "b"), "C13/slice elements: second element merged")
+			} else {
+				verif.Assert(verif.And(t.Hosts[1].Port == pre.Hosts[1].Port, t.Hosts[1].Name == "b"), "C13/slice elements: element beyond the configured list untouched")
+			}
+		}
+	case 2:
+		verif.Assert(len(t.Maps) == 1 && verif.And(t.Maps[0]["j"] == u, t.Maps[0]["k"] == pre.Maps[0]["k"]), "C13/slice elements: map element merged")
+	case 3:
+		verif.Assert(len(t.Deep) == 1 && len(t.Deep[0]) == 2 && verif.And(t.Deep[0][0] == u, t.Deep[0][1] == pre.Deep[0][1]), "C13/slice elements: nested slice merged index-wise")
+	}
+}
+
+type c13Range struct {
+	Min  int64    `config:"min"`
+	Max  int64    `config:"max"`
+	Name string   `config:"name"`
+	Tags []string `config:"tags"`
+	note uint64
+}
+
+var errRange = ucfgErr("min must not exceed max")
+
+type ucfgErr string
+
+func (e ucfgErr) Error() string { return string(e) }
+
+func (r *c13Range) Validate() error {
+	if r.Min > r.Max {
+		return errRange
+	}
+	return nil
+}
+
+// H_C13_struct_validate: every setting converts, but the struct's own Validate() rejects the
+// result (cross-field check): the struct passed in keeps its previous values.
+func H_C13_struct_validate() {
+	pre := c13Range{Min: 1, Max: 10, Name: "old", Tags: []string{"x"}, note: verif.Uint64("pre.note")}
+	t := pre
+	t.Tags = append([]string{}, pre.Tags...)
+	m := verif.Int64("cfg.min")
+	c, err := ucfg.NewFrom(map[string]interface{}{"min": m, "name": "new", "tags": []interface{}{"a", "b"}})
+	verif.Assume(err == nil)
+	err = c.Unpack(&t)
+	if err != nil {
+		verif.Reach("struct-level validation failed")
+		verif.Assert(verif.And(verif.And(t.Min == pre.Min, t.Max == pre.Max), t.note == pre.note), "C13/struct Validate failed: numeric fields keep their previous values")
+		verif.Assert(t.Name == "old" && len(t.Tags) == 1, "C13/struct Validate failed: other fields keep their previous values")
+	} else {
+		verif.Reach("struct-level validation passed")
+		verif.Assert(verif.And(t.Min == m, m <= 10), "C13/struct Validate passed: setting stored")
+	}
+}
